@@ -8,8 +8,11 @@
   "replace": [],
   "assumed": ["psLockMutex/psUnlockMutex (model: ghost held flag, error flag on double lock / unlock without lock / wrong mutex)", "psGetTime (model: returns the harness-chosen time)", "psDiffMsecs (model: returns a harness-chosen value, records its two arguments)", "Memcmp/Memcpy (CBMC models)"],
   "mode": "proof",
-  "why_proof": "the function is loop-free; memcmp/memcpy lengths are at most 32/48 (constant capacity, fully unwound with unwinding assertions); session table configured to 3 entries (SSL_SESSION_TABLE_SIZE is a configuration constant, the function indexes the table, it does not iterate it)",
-  "unwind": 50,
+  "why_proof": "the function is loop-free; the memcmp length is at most 32 (constant capacity, loop of the memcmp model fully unwound with unwinding assertions, --unwindset memcmp.0:34); session table configured to 3 entries (SSL_SESSION_TABLE_SIZE is a configuration constant, the function indexes the table, it does not iterate it)",
+  "unwind": 8,
+  "unwindset": ["memcmp.0:34"],
+  "cases": [{"name": "index0", "defs": ["IDXC=0"]}, {"name": "index1", "defs": ["IDXC=1"]}, {"name": "index2", "defs": ["IDXC=2"]}, {"name": "index_out_of_range", "defs": ["IDXC=3"]}],
+  "object_bits": 10,
   "native_replay": true,
   "timeout": 300
 }
@@ -28,7 +31,10 @@
  *       of the entry it indexes                      (truncated / altered)
  *   not invalidated        = that entry's cipher is not NULL
  *   not expired            = the clock model was asked about exactly that
- *       entry's start time and now, and the answer was within the lifetime
+ *       entry's start time and now, and the answer was within the lifetime;
+ *       a NEGATIVE age is not evidence of freshness: psDiffMsecs returns the
+ *       age in milliseconds as int32 (core/osdep/POSIX/osdep.c:113-125), which
+ *       wraps to a negative number for an entry between 24.9 and 49.7 days old
  *   version / EMS match
  *   exactly that secret    = ssl->sec.masterSecret and ssl->cipher are the
  *       entry's; on refusal both are untouched
@@ -51,6 +57,7 @@
     P(resume_index_names_a_valid_entry,  IMPLIES(OK, IDX < C14_TABLE && OT(IDXE).cipher != NULL)) \
     P(resume_id_equals_all_32_bytes,     IMPLIES(OK, OT(IDXE).id[GK] == g_ssl.sessionId[GK])) \
     P(resume_not_expired,                IMPLIES(OK, gh.gettime_calls == 1 && gh.diff_calls == 1 && gh.diff_result <= SSL_SESSION_ENTRY_LIFE && TIME_EQ(gh.diff_then, OT(IDXE).startTime) && TIME_EQ(gh.diff_now, gh.now))) \
+    P(resume_age_is_not_negative,        IMPLIES(OK, gh.diff_result >= 0)) \
     P(resume_version_matches,            IMPLIES(OK, OT(IDXE).majVer == psEncodeVersionMaj(g_ssl.activeVersion) && OT(IDXE).minVer == psEncodeVersionMin(g_ssl.activeVersion))) \
     P(resume_ems_matches,                IMPLIES(OK, OT(IDXE).extendedMasterSecret == (short) g_ssl.extFlags.extended_master_secret)) \
     P(resume_uses_exactly_that_entrys_secret, IMPLIES(OK, g_ssl.sec.masterSecret[GM] == OT(IDXE).masterSecret[GM] && g_ssl.cipher == OT(IDXE).cipher)) \
@@ -69,7 +76,11 @@ __CPROVER_requires(gh.held == 0 && gh.lock_err == 0 && gh.locks == 0 && gh.getti
 /* parseClientHello (hsDecode.c:221) and the TLS 1.3 parser refuse longer ids */
 __CPROVER_requires(g_ssl.sessionIdLen <= SSL_MAX_SESSION_ID_SIZE)
 POSTS(ENSURES_CLAUSE)
+#if IDXC < C14_TABLE
 CANARY_CLAUSE(__CPROVER_return_value != PS_SUCCESS)
+#else
+CANARY_CLAUSE(__CPROVER_return_value != PS_LIMIT_FAIL)      /* success is (rightly) unreachable with an out-of-range index */
+#endif
 __CPROVER_assigns(g_ssl.sec.masterSecret, g_ssl.cipher, __CPROVER_object_whole(g_sessionTable), g_sessionChronList, gh)
 ;
 
@@ -94,11 +105,18 @@ HARNESS_BEGIN
     HARNESS_INPUTS(struct inputs, in);
     int32 vr_ret;
     int i;
-    /* type invariant of the reference counts (C14_INUSE_MAX), mirrors c14_wf in the requires clause */
+    /* domain of the reference counts (C14_INUSE_MAX): no int32 overflow by one more reference */
     for (i = 0; i < C14_TABLE; i++) { __CPROVER_assume(in.tab.inUse[i] >= 0 && in.tab.inUse[i] <= C14_INUSE_MAX); }
     __CPROVER_assume(in.ssl.sessionIdLen <= SSL_MAX_SESSION_ID_SIZE);
     c14_build_table(&in.tab);
     c14_build_ssl(&in.ssl);
+    /* mode enumeration (DESIGN 1.4): the table index encoded in the id is a constant per case;
+       IDXC = 0, 1, 2 are the in-range indices, IDXC = 3 stands for every out-of-range value */
+#if IDXC < C14_TABLE
+    g_ssl.sessionId[0] = IDXC; g_ssl.sessionId[1] = 0; g_ssl.sessionId[2] = 0; g_ssl.sessionId[3] = 0;
+#else
+    __CPROVER_assume(IDX >= C14_TABLE);
+#endif
     gh.held = 0; gh.lock_err = 0; gh.locks = 0; gh.gettime_calls = 0; gh.diff_calls = 0;
     gh.now.psTimeAbstract[0] = in.now[0];
     gh.now.psTimeAbstract[1] = in.now[1];
